@@ -357,7 +357,8 @@ fn legal_in_context(t: &T, ctx: &str) -> Result<(), &'static str> {
     if ctx == "bare" {
         let ok = match t {
             T::Check(x) => matches!(**x, T::PkK(_) | T::PkH(_)),
-            T::Multi(_, ks) => ks.len() <= 3,
+            // sortedmulti encodes to the same standard bare multisig shape
+            T::Multi(_, ks) | T::SortedMulti(_, ks) => ks.len() <= 3,
             _ => false,
         };
         if !ok {
@@ -365,6 +366,38 @@ fn legal_in_context(t: &T, ctx: &str) -> Result<(), &'static str> {
         }
     }
     Ok(())
+}
+
+/// Multisig arities around every limit (bare standardness: 3 keys; CHECKMULTISIG: 20 keys;
+/// CHECKSIGADD: 999 keys), several k each, also below a wrapper and next to a sibling.
+fn arity_family(tap: bool) -> Vec<T> {
+    let keys = |n: usize| -> Vec<String> { (1..=n).map(|i| format!("K{}", i)).collect() };
+    let mut base = vec![];
+    let ns: Vec<usize> = if tap { vec![1, 2, 3, 4, 5, 20, 21, 998, 999] } else { (1..=20).collect() };
+    for n in ns {
+        let mut ks = vec![1usize, 2, 3, 4, n.saturating_sub(1), n];
+        ks.sort();
+        ks.dedup();
+        for k in ks {
+            if k == 0 || k > n {
+                continue;
+            }
+            if tap {
+                base.push(T::MultiA(k, keys(n)));
+                base.push(T::SortedMultiA(k, keys(n)));
+            } else {
+                base.push(T::Multi(k, keys(n)));
+                base.push(T::SortedMulti(k, keys(n)));
+            }
+        }
+    }
+    let mut out = vec![];
+    for b in base {
+        out.push(T::AndV(Box::new(T::Verify(Box::new(b.clone()))), Box::new(T::True)));
+        out.push(T::ZeroNotEqual(Box::new(b.clone())));
+        out.push(b);
+    }
+    out
 }
 
 fn acceptance(rep: &Report, n: usize) -> (Census, u64, u64) {
@@ -376,7 +409,8 @@ fn acceptance(rep: &Report, n: usize) -> (Census, u64, u64) {
             let te = explore::<$ctx>(n, Alphabet::Small, $tap);
             states += te.count() as u64;
             trans += te.attempted;
-            let all: Vec<T> = te.all().map(|m| walk(m).relabel_distinct()).collect();
+            let mut all: Vec<T> = te.all().map(|m| walk(m).relabel_distinct()).collect();
+            all.extend(arity_family($tap));
             let c = all
                 .par_iter()
                 .fold(Census::new, |mut cen, t| {
